@@ -1,22 +1,22 @@
 SPECIFICATION ISpec
 CONSTANTS
   NP = 2
-  Gens = 2
-  Thr = 2
+  Gens = 1
+  Thr = 1
   NT = 3
-  MaxFlush = 0
+  MaxFlush = 1
   MaxWait = 1
-  MaxTick = 1
-  MaxAdv = 1
-  MaxPanic = 1
-  Fix = "none"
+  MaxTick = 0
+  MaxAdv = 0
+  MaxPanic = 0
+  Fix = "inflight"
   Routed = FALSE
   Hook = FALSE
   Steer = TRUE
   Emit = TRUE
   Sizes = {1}
-  Targets = {}
-  Canon = FALSE
-INVARIANTS PrintFinal
+  Targets = {"addWhileOut"}
+  Canon = TRUE
+INVARIANTS PrintHits
 VIEW View
 CHECK_DEADLOCK FALSE
